@@ -390,6 +390,11 @@ class Gen:
             cands.add((lo + hi) / 2)
         if not cands:
             cands = {Decimal(x) for x in (-3, 0, 1, 2, 7)}
+        # an open end reaches far: values a bound that wrongly defaults to 0 (or to the other bound) would cut off
+        if r and lo is None and hi is not None:
+            cands.update({hi - 100, Decimal(-100), Decimal(-1)})
+        if r and hi is None and lo is not None:
+            cands.update({lo + 100, Decimal(100), Decimal(1)})
         if kind in FLOAT_KINDS:
             for b in (lo, hi):
                 if b is not None:
@@ -619,6 +624,8 @@ class Gen:
             if strmode:
                 return ds(rng.choice(["abc", "", "1.5.2", "tru"]))
             choices = [{"b": True}, ds("str"), dn("1"), {"a": [dn("1")]}, dobj([("a", dn("1"))])]
+            if is_num(kind) and not flag:
+                choices += [ds("5"), ds("1000"), ds("1")]       # a number spelled as a string is not a number
             if kind == "bool":
                 choices = choices[1:]
             elif kind == "string":
@@ -799,6 +806,12 @@ class Gen:
             pairs.append((f["key"], v))
         if rng.random() < 0.1:
             pairs.append(("extra", dn("1") if mode not in STRING_MODES else ds("1")))
+        if rng.random() < 0.08 and keys and "header" not in mode:
+            # keys are matched exactly: the same key in other case is another key
+            k0 = rng.choice(keys)
+            alt = k0.upper() if k0.upper() != k0 else k0.lower()
+            if alt != k0 and alt not in keys:
+                pairs.append((alt, dn("100000") if mode not in STRING_MODES else ds("100000")))
         if rng.random() < 0.15:
             rng.shuffle(pairs)
         return dobj(pairs)
@@ -2404,6 +2417,9 @@ class C08(Property):
                         return False
                     key = fs[i]["key"]
                     del fs[i]
+                    if not path and c.get("dual"):
+                        # the fields tagged for two passes are named by position
+                        c["dual"] = {str(int(j) - (1 if int(j) > i else 0)): owner for j, owner in c["dual"].items() if int(j) != i}
                     if not path and c.get("doc") and "o" in c["doc"]:
                         c["doc"]["o"] = [kv for kv in c["doc"]["o"] if kv["k"] != key]
                 variant(rm)
